@@ -11,6 +11,7 @@ import (
 	kmsv2svc "github.com/aws/aws-sdk-go-v2/service/kms"
 	"github.com/godaddy/asherah/go/appencryption"
 	"github.com/godaddy/asherah/go/appencryption/pkg/crypto/aead"
+	applog "github.com/godaddy/asherah/go/appencryption/pkg/log"
 	v1kms "github.com/godaddy/asherah/go/appencryption/plugins/aws-v1/kms"
 	v2kms "github.com/godaddy/asherah/go/appencryption/plugins/aws-v2/kms"
 	"verif/fakes"
@@ -214,4 +215,117 @@ func TestAWSPluginsSlowRegion(t *testing.T) {
 	}
 	kit.Rec.Enumerated(total, total)
 	kit.Rec.LabelN("aws-plugin-slow-region", total)
+}
+
+// captureLogger keeps every formatted debug line.
+type captureLogger struct {
+	mu    sync.Mutex
+	lines [][]byte
+}
+
+func (c *captureLogger) Debugf(format string, v ...interface{}) {
+	c.mu.Lock()
+	c.lines = append(c.lines, []byte(fmt.Sprintf(format, v...)))
+	c.mu.Unlock()
+}
+
+// panickyAEAD panics in its n-th Encrypt (a custom AEAD, or a failing random source inside the stock one).
+type panickyAEAD struct {
+	appencryption.AEAD
+	panicAt, n int
+}
+
+func (a *panickyAEAD) Encrypt(data, key []byte) ([]byte, error) {
+	a.n++
+	if a.n-1 == a.panicAt {
+		panic("verif: the AEAD panicked while sealing")
+	}
+	return a.AEAD.Encrypt(data, key)
+}
+
+// TestAWSPluginsLogsAndPanics: with a debug logger installed, nothing the plugins log while
+// wrapping / unwrapping (all regions healthy, or the preferred region failing so that another one
+// serves) contains data-key plaintext in any rendering; and when the AEAD panics while the system
+// key is being sealed and the caller recovers, the data key is wiped all the same.
+func TestAWSPluginsLogsAndPanics(t *testing.T) {
+	ctx := context.Background()
+	regions := []string{"us-west-2", "us-east-1", "eu-west-1"}
+	var total int64
+	logger := &captureLogger{}
+	applog.SetLogger(logger)
+	defer applog.SetLogger(nil)
+	for _, kind := range []string{"v1", "v2"} {
+		for failMask := 0; failMask < 4; failMask++ {
+			for _, panicAt := range []int{-1, 0} {
+				w := fakes.NewKMSWorld(regions)
+				aeadImpl := &panickyAEAD{AEAD: aead.NewAES256GCM(), panicAt: panicAt}
+				arn := w.ARNMap()
+				var p appencryption.KeyManagementService
+				var err error
+				if kind == "v1" {
+					k, e := v1kms.NewAWS(aeadImpl, regions[0], arn)
+					if e == nil {
+						for i := range k.Clients {
+							k.Clients[i].KMS = fakes.KMSV1{R: w.Regions[k.Clients[i].Region]}
+						}
+					}
+					p, err = k, e
+				} else {
+					p, err = v2kms.NewBuilder(aeadImpl, arn).WithPreferredRegion(regions[0]).WithAWSConfig(awsv2.Config{}).
+						WithKMSFactory(func(cfg awsv2.Config, _ ...func(*kmsv2svc.Options)) v2kms.AWSClient {
+							return fakes.KMSV2{R: w.Regions[cfg.Region]}
+						}).Build()
+				}
+				if err != nil {
+					t.Fatalf("build %s: %v", kind, err)
+				}
+				w.Regions[regions[0]].FailGenerate = failMask&1 != 0
+				w.Regions[regions[1]].FailGenerate = failMask&2 != 0
+				logger.mu.Lock()
+				logger.lines = nil
+				logger.mu.Unlock()
+				sk := []byte("0123456789abcdef0123456789abcdef")
+				var env []byte
+				var recovered any
+				func() {
+					defer func() { recovered = recover() }()
+					env, err = p.EncryptKey(ctx, append([]byte(nil), sk...))
+				}()
+				total++
+				desc := fmt.Sprintf("%s plugin, GenerateDataKey failing in %02b of the first two regions, AEAD panics: %v", kind, failMask, panicAt >= 0)
+				for _, ret := range w.Retained {
+					if !kit.AllZero(ret.Buf) {
+						msg := fmt.Sprintf("%s: the data-key plaintext (%s.%s) still holds key bytes after EncryptKey (err=%v, recovered panic=%v)", desc, ret.Region, ret.Op, err, recovered)
+						kit.Rec.Violation(msg)
+						t.Fatalf("C10 violated: %s", msg)
+					}
+				}
+				if recovered == nil && err == nil {
+					if _, derr := p.DecryptKey(ctx, env); derr != nil {
+						t.Fatalf("harness: DecryptKey failed: %v", derr)
+					}
+				}
+				// whatever was logged: no data key in it
+				scan := kit.NewScanner()
+				for _, ret := range w.Retained {
+					if len(ret.Value) == 32 {
+						scan.Add(ret.Value, fmt.Sprintf("data key from %s.%s", ret.Region, ret.Op))
+					}
+				}
+				scan.Add(sk, "the system key being wrapped")
+				logger.mu.Lock()
+				for _, l := range logger.lines {
+					if what, enc := scan.Find(l); what != "" {
+						msg := fmt.Sprintf("%s: a debug log line contains %s (%s): %.200q", desc, what, enc, l)
+						kit.Rec.Violation(msg)
+						logger.mu.Unlock()
+						t.Fatalf("C10 violated: %s", msg)
+					}
+				}
+				logger.mu.Unlock()
+			}
+		}
+	}
+	kit.Rec.Enumerated(total, total)
+	kit.Rec.LabelN("aws-plugin-logs-and-panics", total)
 }
